@@ -5,13 +5,14 @@ From Rosmar Require Import Base Json Crc Hlc Kv Store Trace KvTac KvRowOk KvLift
    create/drop, design-document replacement, stale and non-stale view queries anywhere, expiry firing, reopen -
    a view query without stale=ok answers from an index which holds, for every document id k, exactly the
    rows the map function emits for the current version of document k of that collection (scratch_for: none
-   if there is no such document), collated, filtered and limited by select_rows.                          *)
+   if there is no such document), collated, filtered and limited by select_rows and, for a view with a reduce
+   function queried with reduce=true, counted by reduce_rows.                          *)
 Theorem C12_nonstale_query_is_map_of_current_docs :
   forall steps x coll ddoc name p cid v rest, wf_steps steps ->
   let s := sfinal_from store0 steps in
   coll_id s coll = Some cid -> filter (is_view cid ddoc name) (s_views s) = v :: rest -> vp_stale p = false ->
   exists rows,
-    sr_resp (sstep s x (SView coll ddoc name p)) = RRows (map render_vrow (select_rows p rows))
+    sr_resp (sstep s x (SView coll ddoc name p)) = RRows (map render_vrow (reduce_rows p (vd_map v) (select_rows p rows)))
     /\ (forall k, filter (fun row : vrow => String.eqb (fst (fst row)) k) rows = scratch_for s cid (vd_map v) k).
 Proof. exact C12_reachable. Qed.
 Print Assumptions C12_nonstale_query_is_map_of_current_docs.
